@@ -142,7 +142,7 @@ def run(prop=None, ident=None, jobs=6, cfgs=("default", "nodefault"), quiet=Fals
     if prop and focus:
         # per-property thorough tier: all mutants of the property, and the refactorings written for this property's anchors
         # plus the two generic sets (the complete catalogue is `python3 -m mqlint.selftest`)
-        entries = [e for e in entries if e[0] == "mutant" or e[1].startswith(("RF3-%s-" % prop, "RF4-%s-" % prop, "RF5-%s-" % prop, "RF-"))]
+        entries = [e for e in entries if e[0] == "mutant" or e[1].startswith(("RF3-%s-" % prop, "RF4-%s-" % prop, "RF5-%s-" % prop, "RF6-%s-" % prop, "RF-"))]
     if ident:
         entries = [e for e in entries if ident in e[1]]
     allprops = sorted(set(p for e in entries for p in e[2]))
